@@ -199,6 +199,8 @@ def coq_eval(name, text, timeout=600):
     aux = os.path.join(d, "." + name + ".aux")
     if os.path.exists(aux):
         os.unlink(aux)
+    if r.returncode == 0 and os.path.exists(p):
+        os.unlink(p)          # kept only when the evaluation failed (for inspection)
     return r.returncode == 0, r.stdout
 
 
